@@ -37,9 +37,21 @@ class HierarchyFilter(Filter):
         self._parent_hash = None
         self.update_parent(rtdc_ds.hparent)
 
+    def _get_parent_hash(self):
+        """Hash identifying the events the parent currently passes on"""
+        parent = self._parent_rtdc_ds
+        tohash = [parent.filter.all]
+        if parent.format == "hierarchy":
+            # If the parent is a hierarchy child itself, then its events
+            # may change (because one of its ancestors changed) while its
+            # filter array remains identical. The hash of a hierarchy
+            # child changes whenever one of its ancestors changes.
+            tohash.append(parent.hash)
+        return hashobj(tohash)
+
     @property
     def parent_changed(self):
-        return hashobj(self._parent_rtdc_ds.filter.all) != self._parent_hash
+        return self._get_parent_hash() != self._parent_hash
 
     def apply_manual_indices(self, rtdc_ds, manual_indices):
         """Write to `self.manual`
@@ -137,4 +149,4 @@ class HierarchyFilter(Filter):
         # hold reference to rtdc_ds parent
         # (not to its filter, because that is reinstantiated)
         self._parent_rtdc_ds = parent_rtdc_ds
-        self._parent_hash = hashobj(self._parent_rtdc_ds.filter.all)
+        self._parent_hash = self._get_parent_hash()
